@@ -57,6 +57,12 @@ CHECKS = {
    text="RowPairing / RowPlacement are proved on the specification for all draw counts and context rows. On 13 real flows and distributions (with / without embedding network, conditional bases, unconditional coupling transforms) the log-prob returned by sample_and_log_prob must equal log_prob of the returned sample under context row i, markers reveal the row behind each draw, and with torch.randn replaced by a known stream the sample must equal T^-1(mean_i + std_i z).",
    design_ref="DESIGN.md section 4, C04",
    note="The statistical clause (empirical distribution converges) is not decided by this technique; it is replaced by the push-forward identity under a controlled generator plus C03/C05; torch's generators are trusted. " + TRUSTED),
+
+ "C20": dict(
+   technique="TLA+ algebraic specification of the utils helpers over tensor provenance views (spec/Utils.tla, Tensor.tla) model-checked by TLC over all small shapes / arguments; every enumerated call executed on the real helpers with index-tagged tensors, arguments snapshotted",
+   text="TLC enumerates 742 (quick) helper calls - tile, repeat_rows, merge/split leading dims, sum_except_batch for every num_batch_dims, searchsorted on four location vectors x 21 inputs, cbrt on cubes of both signs and 0, logabsdet on 256 integer matrices (all signs, singular), mask constructors for 1..7 features, type-check predicates on int/bool/float/str/None tokens - and proves the algebraic laws. The same calls run on the real helpers with arange / power-of-two tagged tensors so that placement and summation sets are compared exactly, in float32 and float64, with arguments compared before / after.",
+   design_ref="DESIGN.md section 4, C20",
+   note="Shapes of <= 3 dims with sizes <= 3 (4 thorough); gaussian_kde_log_eval is covered under C05. " + TRUSTED),
 }
 REASONS = {}
 
